@@ -1,9 +1,11 @@
-"""C02 -- E1 exploration, monitor selected by tag (see DESIGN.md section 4)."""
-from checks import e1
+"""C02 -- elements destroyed exactly once and relocated only as allowed: E1 (vectors) and E2 (sets), monitor 'life'."""
+from checks import e1, e2
 
 
 def run(ctx):
-    matrix = e1.quick_matrix() if ctx.tier == "quick" else e1.thorough_matrix()
-    matrix = [i for i in matrix if e1.relevant("C02", i)]
-    cov = e1.explore(ctx, matrix, ["C02"])
-    return ctx.finish("model_checking", cov, e1.ASSUME)
+    q = ctx.tier == "quick"
+    vm = [i for i in (e1.quick_matrix() if q else e1.thorough_matrix()) if e1.relevant("C02", i)]
+    cov = e1.explore(ctx, vm, ["C02"])
+    sm = [i for i in ((e2.flat_quick() + e2.small_quick()) if q else (e2.flat_thorough() + e2.small_thorough())) if e2.relevant("C02", i)]
+    cov2 = e1.explore(ctx, sm, ["C02"], engine="E2", eng=e2.ENG)
+    return ctx.finish("model_checking", e1.merge_cov(cov, cov2), e1.ASSUME + e2.ASSUME[1:])
